@@ -254,9 +254,9 @@ CLAIMED = {
          "new reader threads and uses read-side sections, synchronize_rcu, call_rcu, rcu_barrier, a resizable hash table; every "
          "process trace replayed on drv_fork; oracles: per-process invocation counts, registry, crd list, no join, termination. "
          "mask_restored (bp: after after_fork_parent / _child the caller's signal mask equals its mask at before_fork entry, also with "
-         "concurrent forkers); liveness: after_fork_child_eventually_returns (Props/LiveC16.lean). Partial: liveness of invocation in "
-         "each process is C03's queued_callback_eventually_invoked applied per process (C16_full as first written lacks a 'sections "
-         "end' hypothesis); lfht hooks by oracles only.",
+         "concurrent forkers); liveness: after_fork_child_eventually_returns, C16_full'_proved / C16_full_parent'_proved (every "
+         "callback queued at the fork is eventually invoked exactly once in the child and in the parent, under explicit fairness / "
+         "'sections end' / 'no further fork' provisos; Props/LiveC16E2E.lean). Partial: lfht hooks by oracles only.",
     note="Trusted: Lean kernel; fork() clones only the calling thread with a copy of memory; documented preconditions as guards (handlers "
          "called outside read-side sections; other application threads idle and unregistered at the fork for non-bp flavors); callbacks "
          "terminate and do not call rcu_barrier or helper management; L1 ⊑ L2 on explored schedules only. Observations outside the "
@@ -275,11 +275,11 @@ CLAIMED = {
          "/ default helpers incl. RT, call_rcu_data_free with pending callbacks, create_all / free_all / set_cpu, futex fault plans "
          "incl. ENOSYS, urcu_call_rcu_exit; every event replayed on Driver/CallRcu.lean; one-preemption sweeps of the helper's "
          "dec / empty-check / sleep window and the enqueuer's enqueue / wake window; oracles once / head / gp / uaf + deadlock / "
-         "budget. Liveness (Props/LiveC03.lean, fairness explicit): queued_callback_eventually_invoked (a callback in a helper's queue is "
-         "invoked exactly once eventually if helper and wakers are weakly fair, sections end, callbacks terminate, no stop / pause), "
-         "helper_eventually_wakes, tso_helper_eventually_wakes; C03_full as first written (weak fairness only) is shown FALSE "
-         "(C03_full_false: starvation at call_rcu_mutex - a statement artefact). Partial: entry-to-enqueue under mutex contention and "
-         "the hand-over path are outside the liveness theorem. Flavors run: memb (with / without sys_membarrier), mb, qsbr, bp (with / "
+         "budget. Liveness end to end (Props/LiveC03E2E.lean; the property's provisos are explicit hypotheses, CallRcu.FairEnv): "
+         "callback_eventually_invoked_from_call (from the call_rcu() entry through helper selection / lazy creation to 'invoked exactly "
+         "once'), queued_callback_eventually_invoked_any (incl. hand-over when the helper is destroyed), helper_eventually_wakes, "
+         "tso_helper_eventually_wakes; C03_full as first written (weak fairness only) is shown FALSE (C03_full_false: starvation at "
+         "call_rcu_mutex - a statement artefact). Flavors run: memb (with / without sys_membarrier), mb, qsbr, bp (with / "
          "without); in qsbr the helper's register / thread_offline / thread_online / unregister and an online caller's quiescent "
          "states are matched event by event and replayed on the model (Cfg.qsbr: an online thread is an open section since its last "
          "quiescent state).",
@@ -296,10 +296,10 @@ CLAIMED = {
          "(refcount = caller + markers not yet put, freed exactly at 0, no access afterwards); barrier_futex_range, "
          "barrier_no_lost_wakeup, outstanding_marker, marker_not_stuck / marker_measure; barrier_in_cs_refused. Tie: the C03 "
          "scenarios with rcu_barrier callers (concurrent, inside a section, with no helper), oracle 'barrier' + completion poison "
-         "check, sweep of the helper inside the caller's dec / count-test / FUTEX_WAIT window. Liveness (Props/LiveC04.lean): "
-         "barrier_eventually_returns (once the markers are queued, rcu_barrier() returns on every run weakly fair for the caller and the "
-         "markers on which every marker is eventually invoked = C03's liveness). Partial: the lock / init / enqueue prefix under mutex "
-         "contention needs strong fairness (C04_full as first written does not hold under weak fairness). All flavors run; qsbr: "
+         "check, sweep of the helper inside the caller's dec / count-test / FUTEX_WAIT window. Liveness end to end "
+         "(Props/LiveC04E2E.lean, CallRcu.BFairEnv): barrier_eventually_returns_from_call - rcu_barrier() returns on every run with "
+         "strongly fair threads (lock acquisition), weakly fair helpers, ending sections and terminating user callbacks; the marker "
+         "liveness is C03's end-to-end theorem on the projected run. All flavors run; qsbr: "
          "rcu_barrier's was_online / offline / online idiom matched event by event for online and offline callers.",
     note="Trusted: as C03; the barrier layer reaches C03 only through the hooks (base_reach proved).",
     technique="Lean 4 invariants (bookkeeping / refcount / handshake per label; list-decomposition proof of the marker-FIFO invariant) + the C03 trace refinement",
